@@ -310,6 +310,26 @@ func WideDocs() []interface{} {
 		}
 	}
 	out = append(out, []interface{}{rootKinds[4](), rootKinds[1](), rootKinds[2]()}, []interface{}{rootKinds[5](), rootKinds[0](), rootKinds[4]()})
+	// three branches whose .a.a.a chains break at three different depths (missing member or wrong
+	// type), in every order: the deepest failure is first, in the middle or last
+	chainKind := []func() interface{}{
+		func() interface{} { return map[string]interface{}{"b": 1.0} },
+		func() interface{} { return map[string]interface{}{"a": map[string]interface{}{"b": 2.0}} },
+		func() interface{} {
+			return map[string]interface{}{"a": map[string]interface{}{"a": map[string]interface{}{"b": 3.0}}}
+		},
+		func() interface{} { return 7.0 },
+		func() interface{} { return map[string]interface{}{"a": "x"} },
+		func() interface{} { return map[string]interface{}{"a": map[string]interface{}{"a": true}} },
+	}
+	perms := [][3]int{{0, 1, 2}, {0, 2, 1}, {1, 0, 2}, {1, 2, 0}, {2, 0, 1}, {2, 1, 0}}
+	for _, sel := range [][3]int{{0, 1, 2}, {3, 4, 5}, {0, 4, 2}, {3, 1, 5}} {
+		for _, pm := range perms {
+			a, b, c := chainKind[sel[pm[0]]](), chainKind[sel[pm[1]]](), chainKind[sel[pm[2]]]()
+			out = append(out, []interface{}{a, b, c})
+			out = append(out, map[string]interface{}{"a": chainKind[sel[pm[0]]](), "b": chainKind[sel[pm[1]]](), "c": chainKind[sel[pm[2]]]()})
+		}
+	}
 	// documents built in Go in which one container is referenced from several places (a decoder
 	// never produces these; the properties speak about values, so sharing must not matter)
 	sharedMap := map[string]interface{}{"a": 1.0, "b": 2.0}
@@ -410,4 +430,76 @@ func MemberDocs() []interface{} {
 		}
 	}
 	return out
+}
+
+// BigDocs: documents beyond the node bound in the other direction - containers with 9..17
+// members (thresholds such as "more than 8 keys" are common in hand-written fast paths), chains
+// nested 6 deep, and complete ternary trees of depth 3. Leaves are pairwise distinct numbers
+// unless the shape calls for other types.
+func BigDocs() []interface{} {
+	letters := "abcdefghijklmnopq"
+	n := 0.0
+	next := func() interface{} { n++; return n }
+	arr := func(k int, f func(i int) interface{}) []interface{} {
+		o := make([]interface{}, k)
+		for i := range o {
+			o[i] = f(i)
+		}
+		return o
+	}
+	obj := func(k int, f func(i int) interface{}) map[string]interface{} {
+		o := map[string]interface{}{}
+		for i := 0; i < k; i++ {
+			o[letters[i:i+1]] = f(i)
+		}
+		return o
+	}
+	leaf := func(int) interface{} { return next() }
+	var tree func(depth int, object bool) interface{}
+	tree = func(depth int, object bool) interface{} {
+		if depth == 0 {
+			return next()
+		}
+		if object {
+			return obj(3, func(int) interface{} { return tree(depth-1, object) })
+		}
+		return arr(3, func(int) interface{} { return tree(depth-1, object) })
+	}
+	chain := func(depth int, wrap func(interface{}) interface{}) interface{} {
+		var v interface{} = next()
+		for i := 0; i < depth; i++ {
+			v = wrap(v)
+		}
+		return v
+	}
+	return []interface{}{
+		arr(10, leaf),
+		arr(17, leaf),
+		obj(10, leaf),
+		obj(17, leaf),
+		arr(10, func(i int) interface{} { return map[string]interface{}{"a": next(), "b": float64(i % 3)} }),
+		arr(18, func(i int) interface{} {
+			m := map[string]interface{}{"a": float64(i % 3)}
+			if i%2 == 0 {
+				m["b"] = float64(i % 5)
+			}
+			return m
+		}),
+		map[string]interface{}{"b": 1.0, "a": arr(17, func(i int) interface{} { return map[string]interface{}{"a": float64(i % 3), "b": float64(i % 2)} })},
+		obj(9, func(i int) interface{} { return arr(1+i%3, leaf) }),
+		chain(6, func(v interface{}) interface{} { return map[string]interface{}{"a": v} }),
+		chain(6, func(v interface{}) interface{} { return []interface{}{v} }),
+		map[string]interface{}{"a": []interface{}{map[string]interface{}{"a": []interface{}{map[string]interface{}{"a": []interface{}{map[string]interface{}{"b": next()}}}}}}},
+		tree(3, true),
+		tree(3, false),
+		map[string]interface{}{"a": arr(9, leaf), "b": obj(9, leaf)},
+		[]interface{}{next(), "a", nil, true, map[string]interface{}{"a": next()}, []interface{}{next()}, next(), map[string]interface{}{"b": next()}, "b"},
+		[]interface{}{
+			map[string]interface{}{"a": []interface{}{
+				map[string]interface{}{"b": []interface{}{map[string]interface{}{"a": next()}, map[string]interface{}{"a": next()}}},
+				map[string]interface{}{"b": []interface{}{map[string]interface{}{"a": next()}}}}},
+			map[string]interface{}{"a": []interface{}{map[string]interface{}{"b": []interface{}{}}}},
+		},
+		map[string]interface{}{"a": obj(9, func(i int) interface{} { return map[string]interface{}{"a": next(), "b": obj(2, leaf)} }), "b": next()},
+	}
 }
